@@ -12,7 +12,8 @@
 (* 5.4 arguments, 5.5 fragments, 5.6 values) and from the property text,   *)
 (* never from hypothesis-graphql / schemathesis.                           *)
 (*                                                                         *)
-(* State: `shape`, the descriptor of one schema of the bounded family.     *)
+(* State: `shape`, the descriptor of one schema of the bounded family       *)
+(* (optionally a source schema EDITED by an after_load_schema hook).       *)
 (* TLC enumerates the family (every element is an initial state), checks   *)
 (* the design invariants on each and exports it with the spec's expected   *)
 (* outcome (operations, offered sets / counts per filter, canonical        *)
@@ -89,6 +90,51 @@ Types(s) ==
 
 RootName(s, optype) == CASE optype = "query" -> RootQ(s) [] optype = "mutation" -> RootM(s)
                          [] optype = "subscription" -> RootS(s) [] OTHER -> ""
+
+(* ------------------------------ a schema edited by a load hook --------- *)
+(* A user's `after_load_schema` hook may EDIT the introspection result of the schema that was just loaded (hide a root field, change  *)
+(* the declared type of an argument).  From then on the schema IS the edited one: the operations offered, the counts and every       *)
+(* generated document follow the schema AS EDITED, never the source document.                                                        *)
+(* shape.hook: "none" | "hide" (the source declares an extra Query field `debug(token: String!)` and - where a Mutation type exists - *)
+(* an extra Mutation field `purge`; the hook removes them) | "retype" (the source declares every argument of Query.f, and the argument *)
+(* `x` of the first Mutation field, with ANOTHER named type; the hook sets the types this shape declares) | "both".                   *)
+(* Types(s) (above) is the schema IN FORCE, i.e. after the hook - every oracle of this module reads Types(s) / AllOps(s) and therefore *)
+(* speaks about the edited schema.  SourceTypes(s) is what the source document says, HookEdits(s) what the hook does; the design      *)
+(* invariant HookYieldsTypes ties them together: the edits applied to the source give exactly Types(s).                              *)
+HookOf(s) == IF "hook" \in DOMAIN s THEN s.hook ELSE "none"
+Hides(s) == HookOf(s) \in {"hide", "both"}
+Retypes(s) == HookOf(s) \in {"retype", "both"}
+SwapBase(b) == IF b = "String" THEN "Int" ELSE "String"      \* the named type the SOURCE declares where the shape says b
+HiddenQ == FD("debug", <<AD("token", <<"NN", "String">>, FALSE)>>, <<"String">>)
+HiddenM == FD("purge", <<>>, <<"Int">>)
+SrcArgDefs(s) == [i \in 1..Len(s.args) |-> AD(s.args[i].name,
+                                               WrapT(s.args[i].wrap, IF Retypes(s) THEN SwapBase(s.args[i].base) ELSE s.args[i].base),
+                                               s.args[i].wrap = "T!=d")]
+SrcQueryT(s) == TD("object", "", {}, <<FD("f", SrcArgDefs(s), RetType(s.ret))>> \o (IF Hides(s) THEN <<HiddenQ>> ELSE <<>>)
+                                     \o <<FD("ping", <<>>, <<"Int">>)>>, {RootQ(s)}, {})
+SrcMutationT(s) == TD("object", "", {}, <<FD(MField(s), <<AD("x", <<"NN", IF Retypes(s) THEN SwapBase("Int") ELSE "Int">>, FALSE)>>, <<"Obj">>)>>
+                                        \o (IF Hides(s) THEN <<HiddenM>> ELSE <<>>)
+                                        \o <<FD("pong", <<AD("x", <<"Int">>, FALSE)>>, <<"Int">>)>>, {RootM(s)}, {})
+SourceTypes(s) == LET t1 == (RootQ(s) :> SrcQueryT(s)) @@ Types(s)
+                  IN IF s.mut = "none" THEN t1 ELSE (RootM(s) :> SrcMutationT(s)) @@ t1
+(* one edit of the hook: [op ("drop-field" / "set-arg-type"), type, field, arg, to (type reference), dflt] *)
+DropField(type, fld) == [op |-> "drop-field", type |-> type, field |-> fld, arg |-> "", to |-> <<>>, dflt |-> FALSE]
+SetArgType(type, fld, arg, to, dflt) == [op |-> "set-arg-type", type |-> type, field |-> fld, arg |-> arg, to |-> to, dflt |-> dflt]
+HookEdits(s) ==
+    (IF Hides(s) THEN <<DropField(RootQ(s), "debug")>> \o (IF s.mut = "none" THEN <<>> ELSE <<DropField(RootM(s), "purge")>>) ELSE <<>>)
+    \o (IF Retypes(s)
+        THEN [i \in 1..Len(s.args) |-> SetArgType(RootQ(s), "f", s.args[i].name, WrapT(s.args[i].wrap, s.args[i].base), s.args[i].wrap = "T!=d")]
+             \o (IF s.mut = "none" THEN <<>> ELSE <<SetArgType(RootM(s), MField(s), "x", <<"NN", "Int">>, FALSE)>>)
+        ELSE <<>>)
+SetArgIn(args, e) == [j \in 1..Len(args) |-> IF args[j].name = e.arg THEN [args[j] EXCEPT !.type = e.to, !.dflt = e.dflt] ELSE args[j]]
+EditFields(fs, e) == IF e.op = "drop-field" THEN SelectSeq(fs, LAMBDA fl : fl.name # e.field)
+                     ELSE [k \in 1..Len(fs) |-> IF fs[k].name = e.field THEN [fs[k] EXCEPT !.args = SetArgIn(fs[k].args, e)] ELSE fs[k]]
+ApplyEdit(T, e) == [T EXCEPT ![e.type].fields = EditFields(@, e)]
+RECURSIVE ApplyEdits(_, _)
+ApplyEdits(T, es) == IF es = <<>> THEN T ELSE ApplyEdits(ApplyEdit(T, Head(es)), Tail(es))
+(* the root fields of a type table (what a loader that ignored the hook would offer) *)
+RootFieldsOf(T, s) == UNION {{[root |-> r, field |-> T[RootName(s, r)].fields[k].name] : k \in 1..Len(T[RootName(s, r)].fields)} :
+                                 r \in {x \in {"query", "mutation"} : RootName(s, x) # ""}}
 
 (* ------------------------------ values --------------------------------- *)
 (* projected literals:  [t |-> "null"], [t |-> "int", neg, digits], [t |-> "float", finite], [t |-> "str", v (code points)],
@@ -389,7 +435,8 @@ Wraps == <<"T", "T!", "[T]", "[T!]!", "T!=d">>
 Rets == <<"scalar", "object", "interface", "union", "enum", "listobj">>
 Arg(n, b, w) == [name |-> n, base |-> b, wrap |-> w]
 NoMArg == [base |-> "", wrap |-> ""]
-ShapeM(args, ret, mut, names, sub, marg) == [args |-> args, ret |-> ret, mut |-> mut, names |-> names, sub |-> sub, marg |-> marg]
+ShapeH(args, ret, mut, names, sub, marg, hook) == [args |-> args, ret |-> ret, mut |-> mut, names |-> names, sub |-> sub, marg |-> marg, hook |-> hook]
+ShapeM(args, ret, mut, names, sub, marg) == ShapeH(args, ret, mut, names, sub, marg, "none")
 Shape(args, ret, mut, names, sub) == ShapeM(args, ret, mut, names, sub, NoMArg)
 MBases == IF Thorough THEN {Bases[i] : i \in 1..Len(Bases)} ELSE {"Int", "String", "Unreg", "Inner"}
 MArgSet == {[base |-> b, wrap |-> w] : b \in MBases, w \in {"T", "[T]"}}
@@ -399,6 +446,9 @@ Second == IF Thorough THEN {Arg("b", "String", "T"), Arg("b", "Outer", "T!"), Ar
           ELSE {Arg("b", "String", "T"), Arg("b", "Outer", "T!")}
 First == IF Thorough THEN {Arg("a", Bases[i], Wraps[j]) : i \in 1..Len(Bases), j \in 1..Len(Wraps)}
          ELSE {Arg("a", "Int", "T!"), Arg("a", "Inner", "T"), Arg("a", "Color", "[T]")}
+HookedArgs == {<<Arg("a", "Int", "T!")>>, <<Arg("a", "Inner", "T")>>}
+              \cup (IF Thorough THEN {<<Arg("a", "String", "[T!]!")>>, <<Arg("a", "Color", "T!=d")>>, <<Arg("a", "ID", "T"), Arg("b", "Outer", "T!")>>}
+                    ELSE {})
 Family ==
     (* no arguments: every return kind *)
     {Shape(<<>>, Rets[r], m, nm, nm = "custom") : r \in 1..6,
@@ -412,6 +462,10 @@ Family ==
     \cup {ShapeM(<<>>, r, "none", "std", FALSE, ma) : r \in {"interface", "union"}, ma \in MArgSet}
     (* two arguments *)
     \cup {Shape(<<a, b>>, "object", "none", "std", FALSE) : a \in First, b \in Second}
+    (* the schema is EDITED by an after_load_schema hook (root fields hidden / argument types changed / both): Types(s) is the edited schema *)
+    \cup {ShapeH(a, IF m = "none" THEN "object" ELSE "scalar", m, nm, nm = "custom", NoMArg, h) :
+            a \in HookedArgs, m \in (IF Thorough THEN {"none", "same", "other"} ELSE {"none", "same"}),
+            nm \in (IF Thorough THEN {"std", "custom"} ELSE {"std"}), h \in {"hide", "retype", "both"}}
 
 VARIABLE shape
 Init == shape \in Family
@@ -419,14 +473,23 @@ Next == UNCHANGED shape
 Spec == Init /\ [][Next]_shape
 
 (* ------------------------------ design invariants ---------------------- *)
-TableClosed ==       \* every type reference of the table is defined; arguments are input types, fields are output types
-    LET T == Types(shape) IN
+TableClosedT(T) ==   \* every type reference of the table is defined; arguments are input types, fields are output types
     \A n \in DOMAIN T : \A i \in 1..Len(T[n].fields) :
         LET fl == T[n].fields[i] IN
         /\ BaseOf(fl.type) \in DOMAIN T
         /\ (T[n].kind = "input" => T[BaseOf(fl.type)].kind \in {"scalar", "enum", "input"})
         /\ (T[n].kind \in {"object", "interface"} => T[BaseOf(fl.type)].kind \in {"scalar", "enum"} \cup CompositeK)
         /\ \A k \in 1..Len(fl.args) : BaseOf(fl.args[k].type) \in DOMAIN T /\ T[BaseOf(fl.args[k].type)].kind \in {"scalar", "enum", "input"}
+TableClosed == TableClosedT(Types(shape)) /\ TableClosedT(SourceTypes(shape))
+(* the hook's edits, applied to what the source document declares, give exactly the schema every oracle reads; the oracle's operations *)
+(* are the root fields of the EDITED table; and a hooked shape is told apart from its source (a loader ignoring the hook is visible)   *)
+HookYieldsTypes ==
+    /\ ApplyEdits(SourceTypes(shape), HookEdits(shape)) = Types(shape)
+    /\ RootFieldsOf(Types(shape), shape) = AllOps(shape)
+    /\ (HookOf(shape) = "none" <=> HookEdits(shape) = <<>>)
+    /\ (HookOf(shape) = "none" <=> SourceTypes(shape) = Types(shape))
+    /\ (Hides(shape) => RootFieldsOf(SourceTypes(shape), shape) # AllOps(shape))
+    /\ (Retypes(shape) => \A i \in 1..Len(shape.args) : SrcArgDefs(shape)[i].type # ArgDefs(shape)[i].type)
 OfferedSane == \A filt \in Filters(shape) :
                   /\ Offered(shape, filt) \subseteq AllOps(shape)
                   /\ (filt.incl.k = "none" /\ filt.excl.k = "none" => Offered(shape, filt) = AllOps(shape))
@@ -470,7 +533,7 @@ OpView(o) == [root |-> o.root, field |-> o.field, rootName |-> RootName(shape, o
               canon |-> Canon(shape, o),
               mutants |-> {[name |-> m.name, rule |-> m.rule, doc |-> m.doc,
                             viol |-> DocViol(shape, [allowNull |-> TRUE, allowX00 |-> TRUE, ascii |-> FALSE], o, m.doc)] : m \in Mutants(shape, o)}]
-View == [shape |-> shape, types |-> Types(shape),
+View == [shape |-> shape, types |-> Types(shape), source |-> SourceTypes(shape), edits |-> HookEdits(shape),
          roots |-> [query |-> RootQ(shape), mutation |-> RootM(shape), subscription |-> RootS(shape)],
          ops |-> {OpView(o) : o \in AllOps(shape)},
          filters |-> {[filt |-> fl, offered |-> Offered(shape, fl), selected |-> Counts(shape, fl).selected,
